@@ -50,7 +50,7 @@ Print Assumptions C04_decided_on_final_value.
    evaluated after the layout is final (C08_final, C03_*_lands) *)
 Theorem C04_data_untouched :
   forall its consts0 labels0 compress r,
-    assemble_items its consts0 labels0 compress = Done r -> nonneg its -> NoDup (gnames its) -> layout_facts its r.
+    assemble_items its consts0 labels0 compress = Done r -> nonneg its -> layout_facts its r /\ NoDup (gnames its).
 Proof. exact pipeline_layout. Qed.
 Print Assumptions C04_data_untouched.
 
